@@ -64,6 +64,16 @@ pub struct Opts {
     pub scale: u64,
 }
 
+/// Shrinking support: when set, step-list cases keep only the steps whose mask character is '1'.
+pub static MASK: std::sync::OnceLock<Vec<bool>> = std::sync::OnceLock::new();
+
+pub fn apply_mask<T: Clone>(steps: &[T]) -> Vec<T> {
+    match MASK.get() {
+        Some(m) if m.len() == steps.len() => steps.iter().zip(m).filter(|(_, k)| **k).map(|(s, _)| s.clone()).collect(),
+        _ => steps.to_vec(),
+    }
+}
+
 fn main() {
     let args: Vec<String> = std::env::args().collect();
     if args.len() < 3 || args[1] != "gen" {
@@ -88,6 +98,9 @@ fn main() {
             "--out" => o.out = PathBuf::from(v),
             "--shards" => o.shards = v.parse().expect("shards"),
             "--scale" => o.scale = v.parse().expect("scale"),
+            "--mask" => {
+                let _ = MASK.set(v.chars().map(|c| c == '1').collect());
+            }
             "--only" => o.only = Some(v.split(',').filter(|s| !s.is_empty()).map(|s| s.parse().expect("idx")).collect()),
             other => panic!("unknown option {other}"),
         }
